@@ -206,6 +206,16 @@ def evaluate__map_entry(self: XPathFunction, context: ta.ContextType = None) -> 
     return XPathMap(self.parser, items=[(key, value)])
 
 
+def _combine_values(value: Any, other: Any) -> list[Any]:
+    """Concatenates two values in a new sequence (the values of the merged maps are not changed)."""
+    result = list(value) if isinstance(value, list) else [value]
+    if isinstance(other, list):
+        result.extend(other)
+    else:
+        result.append(other)
+    return result
+
+
 @method(function('merge', prefix='map', nargs=(1, 2),
                  sequence_types=('map(*)*', 'map(*)', 'map(*)')))
 def evaluate__map_merge(self: XPathFunction, context: ta.ContextType = None) -> XPathMap:
@@ -237,10 +247,7 @@ def evaluate__map_merge(self: XPathFunction, context: ta.ContextType = None) -> 
                     items.pop(k1)  # remove before to replace the key
                     items[k1] = v
                 elif duplicates == 'combine':
-                    try:
-                        items[k1].append(v)
-                    except AttributeError:
-                        items[k1] = [items[k1], v]
+                    items[k1] = _combine_values(items[k1], v)
                 continue
 
             # TODO: too slow. An alternative idea is to couple with the type
@@ -253,10 +260,7 @@ def evaluate__map_merge(self: XPathFunction, context: ta.ContextType = None) -> 
                         items.pop(k2)  # remove before to replace the key
                         items[k1] = v
                     elif duplicates == 'combine':
-                        try:
-                            items[k2].append(v)
-                        except AttributeError:
-                            items[k2] = [items[k2], v]
+                        items[k2] = _combine_values(items[k2], v)
                     break
             else:
                 items[k1] = v
